@@ -427,9 +427,16 @@ Section Lexer.
   Definition lit_real (t : list N) : kind * value := (KAbstractLiteral, VAbsReal t).
   Definition is_e (c : N) : bool := (c =? 101) || (c =? 69).
 
-  Definition abs_real (st0 : rstate) : M (kind * value) :=
+  (* `fix24 = false` is the code before commit 10bee32 (finding F24): the error of the integer scan
+     was dropped, so `1g.5` gave the real literal `1` *)
+  Definition abs_real_gen (fix24 : bool) (st0 : rstate) (pos_after_initial : position)
+             (initial : (N * list N) + terr) : M (kind * value) :=
     set_state st0 ;;;
     txt <- parse_real_literal ;;
+    p <- get_pos ;;
+    (* if reader.pos() < pos_after_initial { initial?; }: the real scan ended before the '.', i.e.
+       the integer part holds an invalid character *)
+    (if fix24 && plt p pos_after_initial then of_result initial ;;; ret tt else ret tt) ;;;
     op <- rpeek ;;
     match op with
     | Some c =>
@@ -440,6 +447,7 @@ Section Lexer.
       else ret (lit_real txt)
     | None => ret (lit_real txt)
     end.
+  Definition abs_real := abs_real_gen true.
 
   Definition abs_int_exp (p0 : position) (initial : (N * list N) + terr) : M (kind * value) :=
     '(iv, it) <- of_result initial ;;
@@ -527,7 +535,24 @@ Section Lexer.
     match onx with
     | None => abs_plain initial
     | Some c =>
-      if c =? 46 then abs_real st0
+      if c =? 46 then abs_real st0 pos_after_initial initial
+      else if c =? 101 then abs_int_exp p0 initial
+      else if c =? 35 then abs_based p0 pos_after_initial initial
+      else if is_bs_letter c then abs_bit_string p0 initial
+      else abs_plain initial
+    end.
+
+  (* parse_abstract_literal before commit 10bee32, kept for the refutation (F24) *)
+  Definition parse_abstract_literal_old : M (kind * value) :=
+    st0 <- get_state ;;
+    let p0 := r_pos st0 in
+    initial <- try (parse_integer 10 true) ;;
+    pos_after_initial <- get_pos ;;
+    onx <- peek_lowercase d ;;
+    match onx with
+    | None => abs_plain initial
+    | Some c =>
+      if c =? 46 then abs_real_gen false st0 pos_after_initial initial
       else if c =? 101 then abs_int_exp p0 initial
       else if c =? 35 then abs_based p0 pos_after_initial initial
       else if is_bs_letter c then abs_bit_string p0 initial
@@ -893,9 +918,21 @@ Definition lex_all (s : list char) : outcome := lex_gen keywords_2008 true (lex_
 (* the tokenizer before the repair of F5 *)
 Definition lex_all_old (s : list char) : outcome := lex_gen keywords_2008 false (lex_fuel s) s.
 
-(* Latin1String::from_vec(bytes).to_string(): byte b becomes the scalar U+00b
-   (b < 128: one UTF-8 byte; 128..191: C2 b; 192..255: C3 (b-64), i.e. the scalar b) *)
-Definition decode_latin1 (bytes : list N) : list char := bytes.
+(* Contents::from_latin1_file: Latin1String::from_vec(bytes).to_string() = iso_8859_1_to_utf8
+   (data/latin_1.rs), then Contents::from_str on the resulting UTF-8 string.  Bytes are N < 256. *)
+Definition iso_8859_1_to_utf8 (bytes : list N) : list N :=
+  flat_map (fun b => if b <? 128 then [b] else if b <? 192 then [194; b] else [195; b - 64]) bytes.
+(* the scalars of a UTF-8 string made of 1- and 2-byte sequences (all that iso_8859_1_to_utf8 emits) *)
+Fixpoint utf8_scalars12 (l : list N) : list char :=
+  match l with
+  | [] => []
+  | b :: r => if b <? 128 then b :: utf8_scalars12 r
+              else match r with
+                   | b2 :: r2 => ((b - 192) * 64 + (b2 - 128)) :: utf8_scalars12 r2
+                   | [] => []
+                   end
+  end.
+Definition decode_latin1 (bytes : list N) : list char := utf8_scalars12 (iso_8859_1_to_utf8 bytes).
 Definition lex_latin1_file (bytes : list N) : outcome := lex_all (decode_latin1 bytes).
 
 (* ---------- a flat serialisation of outcomes (used by the check to compare the extracted
